@@ -1,6 +1,7 @@
 """C20 — generated source files are syntactically well-formed."""
 import collections
 import concurrent.futures
+import gc
 import hashlib
 import os
 import pathlib
@@ -11,7 +12,7 @@ import time
 import traceback
 from typing import Any, Dict, List, Optional, Sequence, Tuple
 
-from vf import corpus, docinject as di, driver, env, harness, mmgen, syntaxcheck as sc
+from vf import corpus, docinject as di, driver, env, harness, hooks, mmgen, syntaxcheck as sc
 
 RULE = (
     "accepted meta-models (a kitchen-sink model with every kind of text-bearing entity, MMG "
@@ -28,6 +29,10 @@ RULE = (
 )
 
 CPP_UNITY_EXCLUDE = ("jsonization",)
+
+# (seen hashes, baseline failure counters) of the kitchen-sink baseline, computed by the
+# parent before it forks the workers (inherited copy-on-write).
+_PARENT_STATE: Optional[Tuple[Dict, Dict]] = None
 
 
 def sha(data: bytes) -> str:
@@ -124,6 +129,10 @@ class Worker:
         self.tools = Tools(self.chk)
         self.seen: Dict[Tuple[str, str], bool] = {}  # (target, normalized hash) -> checked
         self.baseline: Dict[Tuple[str, str], collections.Counter] = {}
+        if _PARENT_STATE is not None:
+            self.seen = dict(_PARENT_STATE[0])
+            self.baseline = dict(_PARENT_STATE[1])
+        self.cpp_confirmed: Dict[str, int] = {}
         self.admitted: Dict[Tuple[str, str], bool] = {}
         self.probe_sites = di.Sites(di.PROBE)
         self.serial = 0
@@ -366,6 +375,11 @@ class Worker:
                 one = compilable(job)
                 if not one:
                     continue
+                confirm_key = f"{job[0].payload}@{job[0].category}"
+                if self.cpp_confirmed.get(confirm_key, 0) >= 1 and not job[0].is_clean:
+                    chk.count("gxx_confirmations_skipped_same_mechanism")
+                    continue
+                self.cpp_confirmed[confirm_key] = self.cpp_confirmed.get(confirm_key, 0) + 1
                 rc, diags, raw = sc.gxx_unity(
                     one, [str(job[1].root / "include")], workdir, timeout=600, name="single"
                 )
@@ -549,6 +563,12 @@ def payload_text(name: str, category: str) -> str:
     return di.PAYLOADS_CORE.get(name) or di.PAYLOADS_EXTRA[name]
 
 
+def run_baseline(w: "Worker", base_name: str, sites: di.Sites) -> None:
+    clean = di.clean_variant(sites, w.chk.rng("clean", base_name))
+    w.process([Variant(base_name, "plain", "no-payload", clean.text, True)])
+    w.chk.count("baselines_checked")
+
+
 def worker(args) -> Dict[str, Any]:
     argv, shard, n_shards = args
     w = Worker(argv, shard)
@@ -567,7 +587,7 @@ def worker(args) -> Dict[str, Any]:
         ]
         sites_of: Dict[int, di.Sites] = {}
         batch: List[Variant] = []
-        batch_size = chk.pick(10, 14)
+        batch_size = chk.pick(14, 16)
 
         def flush() -> None:
             if batch:
@@ -579,15 +599,14 @@ def worker(args) -> Dict[str, Any]:
                 chk.count("tasks_skipped_for_budget", len(mine) - index)
                 break
             if b not in sites_of:
-                flush()
                 base_name, base_text = bases[b]
                 try:
                     sites_of[b] = di.Sites(base_text)
                 except SyntaxError:
                     continue
-                clean = di.clean_variant(sites_of[b], chk.rng("clean", base_name))
-                w.process([Variant(base_name, "plain", "no-payload", clean.text, True)])
-                chk.count("baselines_checked")
+                if (base_name, "python") not in w.baseline:
+                    flush()
+                    run_baseline(w, base_name, sites_of[b])
             variants = w.make_variants(bases[b][0], sites_of[b], name, category,
                                        payload_text(name, category))
             if not variants:
@@ -605,8 +624,25 @@ def worker(args) -> Dict[str, Any]:
 
 
 def main(argv) -> int:
+    global _PARENT_STATE
     chk = harness.Check("C20", "exploration", RULE, argv)
     n_shards = 8
+    # Import every generator before forking (the first use of a target costs seconds),
+    # and check the payload-free kitchen sink once, here: the workers inherit the result.
+    hooks.import_all_repo_modules()
+    parent = Worker(argv, 99)
+    try:
+        run_baseline(parent, "kitchen-sink", di.Sites(di.KITCHEN_SINK))
+    except Exception:
+        chk.harness_error("baseline crashed: " + traceback.format_exc()[-1500:])
+    finally:
+        parent.tools.close()
+    for target in driver.TARGETS:
+        parent.baseline.setdefault(("kitchen-sink", target), collections.Counter())
+    _PARENT_STATE = (parent.seen, parent.baseline)
+    chk.merge(parent.chk.export())
+    gc.collect()
+    gc.freeze()
     with concurrent.futures.ProcessPoolExecutor(max_workers=n_shards) as pool:
         jobs = [pool.submit(worker, (list(argv), s, n_shards)) for s in range(n_shards)]
         for job in jobs:
@@ -640,7 +676,9 @@ def main(argv) -> int:
         ("files_parsed/xml", 30, 200), ("files_parsed/cpp-compiler", 40, 300),
         ("files_parsed/cpp-preprocessor", 60, 400), ("csharp_doc_blocks_parsed", 500, 4000),
     ):
-        leg = name.split("/")[-1].split("-")[0]
+        leg = {"cpp-compiler": "cpp", "cpp-preprocessor": "cpp"}.get(
+            name.split("/")[-1], name.split("/")[-1]
+        )
         if any(u.startswith(leg) for u in chk.unavailable):
             continue
         chk.require_min(name, chk.pick(quick, thorough))
